@@ -32,7 +32,7 @@ var truthLeaves = map[string]tvLeaf{
 	"null": {false, "null"}, "np": {false, "nilptr"}, "nn": {false, "null"}, "undefinedName": {false, "null"},
 	"true": {true, "bool"}, "false": {false, "bool"},
 	"0": {false, "number"}, "(0*-1)": {false, "number"}, "0.0": {false, "number"}, "0e3": {false, "number"}, "fnan2": {false, "number"},
-	"finf": {true, "number"}, "fninf": {true, "number"}, "1": {true, "number"}, "(-1)": {true, "number"}, "0.5": {true, "number"}, "1.50": {true, "number"}, "1e-30": {true, "number"}, "izero": {false, "number"}, "fzero": {false, "number"}, "fnan": {false, "number"},
+	"finf": {true, "number"}, "fninf": {true, "number"}, "1": {true, "number"}, "(-1)": {true, "number"}, "0.5": {true, "number"}, ".5": {true, "number"}, ".0": {false, "number"}, "1.50": {true, "number"}, "1e-30": {true, "number"}, "izero": {false, "number"}, "fzero": {false, "number"}, "fnan": {false, "number"},
 	"''": {false, "string"}, "es": {false, "string"}, "'0'": {true, "string"}, "' '": {true, "string"}, "'a'": {true, "string"}, "'false'": {true, "string"}, "'x'": {true, "string"},
 	"this.izero": {false, "number"}, "this.es": {false, "string"}, "this.m": {true, "other"},
 	"[]": {true, "other"}, "[0]": {true, "other"}, "[1]": {true, "other"}, "m": {true, "other"}, "em": {true, "other"}, "st": {true, "other"}, "t": {true, "other"}, "len": {true, "other"}, "fn0": {true, "other"}, "earr": {true, "other"}, "t2": {true, "other"}, "t0": {true, "other"},
@@ -277,6 +277,16 @@ func checkTruth(c truthCase) (msg string, unspec bool) {
 				m = fmt.Sprintf("(evaluation %d of the same parsed tree, data set flipped=%v) %s", round+1, flipped, m)
 			}
 			return m, false
+		}
+	}
+	// the same program without optional spaces (`c?.5:x`, `a||!b`): spacing is not part of the meaning
+	if compact := c.Tree.Compact(); compact != text {
+		q := obs.Parse([]byte("[" + compact + "]"))
+		if !q.OK() {
+			return fmt.Sprintf("%q is accepted but the same tokens without optional spaces, %q, are rejected: %v", text, compact, q.Err), false
+		}
+		if m, u := checkTruthOnce(c, q.Src.Expression, compact, false); !u && m != "" {
+			return "(compact spelling) " + m, false
 		}
 	}
 	return "", false
